@@ -210,6 +210,11 @@ func checkDecode(d decoder, in []byte) (f *finding, success bool) {
 		return &finding{clause: clause, tags: []string{"decoder:" + d.name}, msg: msg, cost: len(in),
 			ref: caseRef{Part: "decode", Decoder: d.name, Input: hex.EncodeToString(in)}}
 	}
+	// the decoder sees a slice whose capacity equals its length, as a freshly read blob has: reading one byte past
+	// the end must show up as a panic and not be absorbed by spare capacity of the harness's buffer
+	exact := make([]byte, len(in))
+	copy(exact, in)
+	in = exact
 	v, err, pmsg := safeDec(d, in)
 	if pmsg != "" {
 		return mk("decoder-panic", fmt.Sprintf("%s decoder panics on input %x: %s", d.name, in, pmsg)), false
@@ -246,19 +251,19 @@ func checkDecode(d decoder, in []byte) (f *finding, success bool) {
 
 // cache decoder: a directory holding only the (mutated) file; LoadFromDisk must fail cleanly or load contents that
 // survive SaveToDisk + LoadFromDisk unchanged.
-func checkCacheDecode(kind, file string, in []byte, tmp string) (f *finding, success bool) {
+func checkCacheDecode(kind, file string, in []byte) (f *finding, success bool) {
 	name := "cache:" + kind + ":" + file
 	mk := func(clause, msg string) *finding {
 		return &finding{clause: clause, tags: []string{"decoder:" + name}, msg: msg, cost: len(in),
 			ref: caseRef{Part: "decode", Decoder: name, Input: hex.EncodeToString(in)}}
 	}
-	d1 := filepath.Join(tmp, "in")
-	d2 := filepath.Join(tmp, "out")
-	os.RemoveAll(d1)
-	os.RemoveAll(d2)
-	if err := os.MkdirAll(d1, 0o755); err != nil {
-		panic(err)
+	sc := getScratch()
+	defer putScratch(sc)
+	d1, d2 := sc.in, sc.out
+	if sc.lastFile != "" && sc.lastFile != file {
+		os.Remove(filepath.Join(d1, sc.lastFile))
 	}
+	sc.lastFile = file
 	if err := os.WriteFile(filepath.Join(d1, file), in, 0o644); err != nil {
 		panic(err)
 	}
@@ -312,6 +317,43 @@ func cacheFixedPoint[T any](d1, d2 string) (first *cacheDump, serr, lerr error, 
 	return
 }
 
+// scratch directories are reused (creating and removing directories dominates the run time otherwise): "in" holds at
+// most one file at a time, "out" is only ever written by SaveToDisk, which rewrites all four files.
+type scratch struct {
+	in, out  string
+	lastFile string
+}
+
+var (
+	scratchPool sync.Pool
+	scratchAll  sync.Map
+)
+
+func getScratch() *scratch {
+	if x := scratchPool.Get(); x != nil {
+		return x.(*scratch)
+	}
+	root, err := os.MkdirTemp("", "c12-scratch-")
+	if err != nil {
+		panic(err)
+	}
+	sc := &scratch{in: filepath.Join(root, "in"), out: filepath.Join(root, "out")}
+	if err := os.MkdirAll(sc.in, 0o755); err != nil {
+		panic(err)
+	}
+	if err := os.MkdirAll(sc.out, 0o755); err != nil {
+		panic(err)
+	}
+	scratchAll.Store(root, true)
+	return sc
+}
+
+func putScratch(sc *scratch) { scratchPool.Put(sc) }
+
+func removeScratch() {
+	scratchAll.Range(func(k, _ any) bool { os.RemoveAll(k.(string)); return true })
+}
+
 // ---- whole-cache round trip (part a, cache files) ----------------------------------------------------------------------
 
 func checkCacheValue(cs CacheSpec, ref caseRef, cost int) valueResult {
@@ -320,11 +362,9 @@ func checkCacheValue(cs CacheSpec, ref caseRef, cost int) valueResult {
 	add := func(clause string, tags []string, msg string) {
 		res.fs = append(res.fs, finding{clause: clause, tags: tags, msg: msg, ref: ref, cost: cost})
 	}
-	dir, err := os.MkdirTemp("", "c12-cache-")
-	if err != nil {
-		panic(err)
-	}
-	defer os.RemoveAll(dir)
+	sc := getScratch()
+	defer putScratch(sc)
+	dir := sc.out // SaveToDisk rewrites all four files
 	var want, got *cacheDump
 	var serr, lerr error
 	pmsg := ""
@@ -411,24 +451,17 @@ type job struct {
 }
 
 func pathsFor(typ, mode string) []path {
-	mk := func() string {
-		d, err := os.MkdirTemp("", "c12-item-")
-		if err != nil {
-			panic(err)
-		}
-		return d
-	}
 	switch typ {
 	case "Header":
 		return pathsHeader
 	case "SignedHeader":
 		if mode == "full" {
-			return append(append([]path{}, pathsSignedHeaderFast...), storeHeaderPath(), cacheItemPath[types.SignedHeader](mk))
+			return append(append([]path{}, pathsSignedHeaderFast...), storeHeaderPath(), cacheItemPath[types.SignedHeader]())
 		}
 		return pathsSignedHeaderFast
 	case "Data":
 		if mode == "full" {
-			return append(append([]path{}, pathsDataFast...), storeDataPath(), cacheItemPath[types.Data](mk))
+			return append(append([]path{}, pathsDataFast...), storeDataPath(), cacheItemPath[types.Data]())
 		}
 		return pathsDataFast
 	case "SignedData":
@@ -915,9 +948,7 @@ func replay(r *vf.Run, g *goldenFile) {
 		}
 		if strings.HasPrefix(ref.Decoder, "cache:") {
 			p := strings.SplitN(ref.Decoder, ":", 3)
-			tmp, _ := os.MkdirTemp("", "c12-replay-")
-			defer os.RemoveAll(tmp)
-			if f, _ := checkCacheDecode(p[1], p[2], in, tmp); f != nil {
+			if f, _ := checkCacheDecode(p[1], p[2], in); f != nil {
 				report(r, *f)
 			}
 			return
@@ -1154,14 +1185,9 @@ func TestCheck(t *testing.T) {
 	}
 	nCShort := shortCount(cacheShort)
 	nFiles := int64(len(kinds) * len(cacheFileNames))
-	tmpRoot, err := os.MkdirTemp("", "c12-dec-")
-	if err != nil {
-		r.EngineError(err.Error())
-	}
 	var cacheEvals, cacheOK int64
 	cacheRun := func(w int, kind, file string, in []byte, countDistinct bool) {
-		tmp := filepath.Join(tmpRoot, fmt.Sprint(w))
-		f, success := checkCacheDecode(kind, file, in, tmp)
+		f, success := checkCacheDecode(kind, file, in)
 		atomic.AddInt64(&cacheEvals, 1)
 		if success && countDistinct {
 			atomic.AddInt64(&cacheOK, 1)
@@ -1186,8 +1212,8 @@ func TestCheck(t *testing.T) {
 			cacheRun(w, c.kind, c.file, c.in, first)
 		}
 	})
-	os.RemoveAll(tmpRoot)
 	lap("decode-cache-mutants")
+	removeScratch()
 	fmt.Printf("C12 phases (s): %v\n", phase)
 
 	evals += decEvals + cacheEvals
